@@ -28,7 +28,7 @@ EXPLANATION = (
 NOT_DECIDED = ["pickle round trip (delegated to Python's pickle over the same classes)",
                "that index renumbering after subset yields contiguous indices (run-time list arithmetic)"]
 ASSUMPTIONS = ["Atom objects are usable as dict keys for old->new maps (Atom.__hash__ = index)"]
-FLOORS = {"C04-R1": 30, "C04-R2": 5, "C04-R3": 6, "C04-R5": 5, "C04-R6": 3, "C04-R7": 3}
+FLOORS = {"C04-R1": 30, "C04-R2": 5, "C04-R3": 6, "C04-R5": 5, "C04-R6": 3, "C04-R7": 3, "C04-R8": 6}
 
 TOP = "mdtraj/core/topology.py"
 H5 = "mdtraj/formats/hdf5.py"
@@ -76,6 +76,8 @@ def check(ctx):
                        "(positional index fields excepted: containers are compared element-wise in order)")
     ctx.rule("C04-R5", "every path that edits _atoms/_residues updates _numAtoms/_numResidues before normal exit")
     ctx.rule("C04-R6", "a preserved integer (resSeq, serial, order) is never defaulted with `or` (0 is falsy)")
+    ctx.rule("C04-R8", "copy / subset / join / _topology_from_subset never return their input; chains and residues are renumbered after the empty ones were removed")
+    r8_fresh_and_renumbered(ctx)
     ctx.rule("C04-R7", "the atom number written in CONECT is produced by the same scheme as the serial on ATOM (same use of atom.serial, same counter start and TER increments)")
     sigs = {k: _sig(ctx, k) for k in REQUIRED}
 
@@ -594,3 +596,31 @@ def _r7(ctx):
                    "first atom numbered %d in both, %d extra per chain in both" % (w0, wb),
                    "with ter=%s the first ATOM serial is %d (+%d per chain end) but the first CONECT number is %d (+%d per chain): "
                    "CONECT records name the wrong atoms" % (ter, w0, wb, f0, fb))
+
+
+def r8_fresh_and_renumbered(ctx):
+    """Rebuilders return a new object on every path; index renumbering runs over the lists as they are after all deletions."""
+    # (a) no rebuilder hands back its input
+    for q, inputs in (("Topology.copy", {"self"}), ("Topology.subset", {"self"}), ("_topology_from_subset", {"topology"}), ("Topology.join", {"self", "other"})):
+        fn = ctx.py.func(TOP, q)
+        rets = [n for n in walk_no_nested(fn) if isinstance(n, ast.Return) and n.value is not None]
+        bad = [r for r in rets if isinstance(r.value, ast.Name) and r.value.id in inputs]
+        ctx.decide(bool(rets) and not bad, "C04-R8", bad[0] if bad else fn, TOP, q, "never returns its input object (%d returns)" % len(rets), "",
+                   "`return %s` at line %d: on that path the 'new' topology is the source itself, so editing one (add_bond, insert_atom, delete_atom_by_index) edits the other"
+                   % (bad[0].value.id if bad else "?", bad[0].lineno if bad else 0))
+    # (b) renumbering after the deletions
+    fn = ctx.py.func(TOP, "_topology_from_subset")
+    body = fn.body
+    idx = {id(s): i for i, s in enumerate(body)}
+    for lst, attr in (("_chains", "chains"), ("_residues", "residues")):
+        filters = [i for i, s in enumerate(body) if isinstance(s, ast.Assign) and (dotted(s.targets[0]) or "").endswith("newTopology." + lst) and isinstance(s.value, ast.ListComp)]
+        renum = []
+        for i, s in enumerate(body):
+            if isinstance(s, ast.For) and isinstance(s.iter, ast.Call) and call_name(s.iter) == "enumerate" and s.iter.args and \
+                    (dotted(s.iter.args[0]) or "") in ("newTopology." + lst, "newTopology." + attr):
+                if any(isinstance(x, ast.Assign) and isinstance(x.targets[0], ast.Attribute) and x.targets[0].attr == "index" for x in ast.walk(s)):
+                    renum.append(i)
+        ok = len(renum) == 1 and bool(filters) and max(filters) < renum[0]
+        ctx.decide(ok, "C04-R8", body[renum[0]] if renum else fn, TOP, "_topology_from_subset", "%s renumbered once, after the empty ones were removed" % attr, "",
+                   "the index renumbering of %s (statement %s) does not come after the removal of the empty ones (statement %s): the indices of the survivors keep gaps, `top.%s(i).index != i`"
+                   % (attr, renum, filters, attr[:-1]))
